@@ -754,7 +754,7 @@ func (g *JSGen) classBody(depth int, derived bool) string {
 		if k == "length" && st != "" {
 			k = "len"
 		}
-		switch r.Intn(8) {
+		switch r.Intn(9) {
 		case 0:
 			if g.F.ClassFields {
 				g.stat("class-field")
@@ -771,6 +771,41 @@ func (g *JSGen) classBody(depth int, derived bool) string {
 				if r.Bool() {
 					sb.WriteString("static hasQ(o) { return #q in o }\n")
 				}
+				continue
+			}
+			fallthrough
+		case 5:
+			if g.F.ClassFields && g.F.PrivateNames && g.F.Accessors && g.F.Destructuring && !hasPriv {
+				// private accessor pair / field / method used as destructuring-assignment targets and with
+				// compound assignment, update and optional chaining
+				g.stat("class-private-accessor-destructure")
+				hasPriv = true
+				t := g.tag()
+				sb.WriteString(fmt.Sprintf("%sget #acc() { return p(%d, \"get\", this === undefined ? 0 : 1) }\n%sset #acc(v) { p(%d, \"set\", v) }\n", st, t, st, t))
+				sb.WriteString("#q = " + g.thislessExpr(depth-1) + ";\n")
+				sb.WriteString(st + "#pm(a) { return " + g.probe("a") + " }\n")
+				tgt := "this"
+				mname := "destr"
+				sb.WriteString(st + mname + "(v) {\n")
+				forms := []string{
+					"[" + tgt + ".#acc] = [v];\n",
+					"({x: " + tgt + ".#acc} = {x: v});\n",
+					"[" + tgt + ".#acc = " + g.literal() + "] = [];\n",
+					"[..." + tgt + ".#acc] = [v, 1];\n",
+					tgt + ".#acc += v;\n",
+					tgt + ".#acc++;\n",
+					tgt + ".#acc ??= v;\n",
+					"({y: " + tgt + ".#acc, ..." + tgt + ".#acc} = {y: 1, z: v});\n",
+					g.probe(tgt+"?.#acc") + ";\n",
+					g.probe(tgt+".#pm?.(v)") + ";\n",
+				}
+				if st == "" {
+					forms = append(forms, "[this.#q, this.#acc] = [v, this.#q];\n", g.probe("this.#q")+";\n", "for (this.#acc of [v]) {}\n", "for (this.#q in {k: 1}) {}\n"+g.probe("this.#q")+";\n")
+				}
+				for k := 0; k < 2+r.Intn(3); k++ {
+					sb.WriteString(forms[r.Intn(len(forms))])
+				}
+				sb.WriteString("return " + g.probe("v") + ";\n}\n")
 				continue
 			}
 			fallthrough
@@ -890,6 +925,32 @@ func (g *JSGen) Stmt(depth int) string {
 		if g.F.Loops {
 			g.stat("for")
 			c := g.counter()
+			if r.Chance(1, 3) {
+				// initialiser expressions: the `in` operator must stay protected inside a for-init wherever
+				// it ends up (arrow bodies, conditionals, sequences, nested assignments)
+				n := g.fresh()
+				var init string
+				switch r.Intn(5) {
+				case 0:
+					init = "(k) => (k in " + g.objectLit(depth-1) + ")"
+				case 1:
+					init = "(" + e() + ") ? ((k) => k in " + g.objectLit(depth-1) + ") : (" + e() + " in {})"
+				case 2:
+					init = "((\"x\" in " + g.objectLit(depth-1) + "), " + e() + ")"
+				case 3:
+					init = "(k) => (j) => ((k in {}) ? j in " + g.objectLit(depth-1) + " : " + e() + ")"
+				default:
+					init = "(" + g.Expr(depth-1) + ")"
+				}
+				g.stat("for-init-expr")
+				g.push(false)
+				g.declare(jsVar{name: n, mutable: true})
+				g.loopDepth++
+				body := g.block(depth)
+				g.loopDepth--
+				g.pop()
+				return fmt.Sprintf("for (var %s = %s, %s = 0; %s < %d; %s++) {\n%s%s}\n", n, init, c, c, 1+r.Intn(2), c, g.probe("typeof "+n+" === \"function\" ? "+n+"(\"x\") : "+n)+";\n", body)
+			}
 			g.loopDepth++
 			body := g.block(depth)
 			g.loopDepth--
@@ -1029,7 +1090,20 @@ func (g *JSGen) Stmt(depth int) string {
 			body := g.classBody(depth, derived)
 			g.declare(jsVar{name: n, kind: 2})
 			g.stat("class-decl")
-			return "class " + n + heritage + " {\n" + body + "}\n" + g.probe("new "+n+"("+e()+")") + ";\n"
+			out := "class " + n + heritage + " {\n" + body + "}\n"
+			// instantiate and exercise the members (optional calls: a member may be absent or an accessor)
+			iv := g.fresh()
+			g.declare(jsVar{name: iv, mutable: true, kind: 5})
+			out += "var " + iv + " = " + g.probe("new "+n+"("+e()+")") + ";\n"
+			for _, mname := range []string{"destr", "getQ", "x", "y", "z", "a", "b", "m"} {
+				if r.Chance(1, 2) {
+					out += "try { " + g.probe("typeof "+iv+"."+mname+" === \"function\" ? "+iv+"."+mname+"("+g.literal()+") : "+iv+"."+mname) + "; } catch (err) { " + g.probe("err") + "; }\n"
+				}
+			}
+			if r.Bool() {
+				out += "try { " + g.probe("typeof "+n+".destr === \"function\" ? "+n+".destr("+g.literal()+") : 0") + "; " + g.probe("typeof "+n+".hasQ === \"function\" ? "+n+".hasQ("+iv+") : 0") + "; } catch (err) { " + g.probe("err") + "; }\n"
+			}
+			return out
 		}
 	case 14:
 		if g.inFunc > 0 {
